@@ -16,8 +16,8 @@ PROPERTY = "C11"
 LEVEL = "fault_enumeration"
 RULE = ("histories H1 (serial sweep of 3 designs), H2 (NSGA-II N=2, G=2: evaluate-time sync, per-generation re-sync, final sync_all), H4 (serial sweep in which one design fails transiently twice and is re-sampled), H3 "
         "(sweep of 2 designs on 2 workers, every schedule with <=1 (thorough 2) pre-emptions): the writer process is killed (os._exit, no "
-        "clean-up) at EVERY event index (objective entry/exit, before/after each connect / execute / commit); thorough additionally SIGKILL "
-        "immediately before EVERY file-mutating system call (pwrite64, unlink, ftruncate, fsync, ...) of H1, H2 and H4. After each death the "
+        "clean-up) at EVERY event index (objective entry/exit, before/after each connect / execute / commit); additionally SIGKILL "
+        "immediately before EVERY file-mutating system call (pwrite64, unlink, ftruncate, fsync, ...) of H1 (thorough: H1, H2 and H4), which reaches death inside a commit. After each death the "
         "file is reopened by ProblemViewDataStore and plain sqlite3: view opens, integrity_check ok, every acknowledged id has a row, "
         "every row is complete JSON whose costs are [] or exactly f(vector) with matching signed costs. Crashes before the store's creation "
         "has committed are counted as pre_creation and not judged. Non-trivial = crash point after creation; distinct = distinct "
@@ -342,9 +342,9 @@ def run(tier, seed):
     scheds = h3_schedules(2 if tier == "thorough" else 1)
     shards += [("h3", tuple(s), seed) for s in scheds]
     extra = {"h3_schedules": len(scheds)}
-    if tier == "thorough":
+    if True:
         if crash.strace_available():
-            for name in ("H1", "H2", "H4"):
+            for name in (("H1", "H2", "H4") if tier == "thorough" else ("H1",)):
                 db, ack = paths("%s-count" % name)
                 rc, counts = crash.strace_writer([name, str(seed), db], when=None)
                 if rc != 0 or not counts:
